@@ -81,8 +81,16 @@ def run(prop, obligations, tier, seed, jobs=0):
         t0 = time.time()
         env = _env()
         env.update(dict(envkv))
+        mem = max([o.get("mem_gb", MEM_LIMIT_GB) for o in obls])
+
+        def _lim(mem=mem):
+            lim = mem * (1 << 30)
+            try:
+                resource.setrlimit(resource.RLIMIT_AS, (lim, lim))
+            except Exception:
+                pass
         with open(log, "w") as lf:
-            p = subprocess.run(cmd, cwd=HARNESS, env=env, stdout=lf, stderr=subprocess.STDOUT, preexec_fn=_limit)
+            p = subprocess.run(cmd, cwd=HARNESS, env=env, stdout=lf, stderr=subprocess.STDOUT, preexec_fn=_lim)
         dt = time.time() - t0
         out = open(log, errors="replace").read()
         if not os.path.exists(json_out):
